@@ -119,7 +119,8 @@ def num_events(ctx, ty, dtype, per_cell):
         add("adj_lin", R.vec_err(adj.tensor()[i].tolist(), ref, eps, floor=mp.mpf(1e-300)), fin(adj[i]))
         add("adjT_lin", R.vec_err(adjT.tensor()[i].tolist(), refT, eps, floor=mp.mpf(1e-300)), fin(adjT[i]))
         # Jinvp against the finite-difference definition (rotation angle of X below 3: away from the cut)
-        if i % max(1, len(rows_x) // (30 if ctx.quick else 200)) == 0 and meta[i]["x"][0] <= 2.5:
+        small_rot = 0 < meta[i]["x"][0] <= 2e-3 and ty in ("SE3", "Sim3") and meta[i]["x"][1] >= 1.0
+        if (small_rot or i % max(1, len(rows_x) // (30 if ctx.quick else 200)) == 0) and meta[i]["x"][0] <= 2.5:
             ref = R.jlinv_fd(ty, xi, ai)
             allow = 0
             if ty == "Sim3":
@@ -151,7 +152,8 @@ def num_events(ctx, ty, dtype, per_cell):
                    "x": xi, "a": pi})
     # Jr on so3
     if ty == "SO3":
-        xs = [[r * d for d in rand_dir(rng, 3)] for r in [0.0, 1e-12, 1e-6, 0.1, 1.0, 2.0, 3.0] for _ in range(per_cell)]
+        xs = [[r * d for d in rand_dir(rng, 3)] for r in [0.0, 1e-12, 1e-6, 0.1, 1.0, 2.0, 3.0, 3.5, 5.0, 2 * math.pi + 0.5, 10.0]
+              for _ in range(per_cell)]
         x = L.mkalg("SO3", xs, dtype)
         J = x.Jr()
         for i, xv in enumerate(xs):
@@ -168,8 +170,8 @@ def num_events(ctx, ty, dtype, per_cell):
         # the SO3-group entry point
         Jg = x.Exp().Jr()
         for i in range(0, len(xs), 2):
-            if all(v == 0 for v in xs[i]):
-                continue
+            if all(v == 0 for v in xs[i]) or math.sqrt(sum(v * v for v in xs[i])) >= 3.1:
+                continue      # SO3.Jr is the right Jacobian at the principal logarithm: same as so3.Jr only below pi
             ref = R.jr_fd(x.tensor()[i].tolist())
             ev.append({"chk": "jr", "ty": ty, "dt": dt, "err": R.block_err(mp.matrix(Jg[i].double().tolist()), ref, range(3), range(3), eps),
                        "finite": True, "allow": 0, "cell": {"ty": ty, "x": ["group"]}, "x": xs[i], "a": []})
